@@ -16,6 +16,11 @@ pub mod c11;
 pub mod c12;
 pub mod c13;
 pub mod c14;
+pub mod c15;
+pub mod c16;
+pub mod c17;
+pub mod c18;
+pub mod c19;
 
 use crate::{Ctx, Report};
 use serde_json::Value;
@@ -36,6 +41,12 @@ pub fn run(prop: &str, ctx: &Ctx) -> Option<Report> {
         "C12" => c12::run(ctx),
         "C13" => c13::run(ctx),
         "C14" => c14::run(ctx),
+        "C15" => c15::run(ctx),
+        "C16" => c16::run(ctx),
+        "C17" => c17::run(ctx),
+        "C18" => c18::run(ctx),
+        "C19" => c19::run(ctx),
+        "C16-valgrind" => c16::run_valgrind(ctx),
         _ => return None,
     })
 }
@@ -56,6 +67,11 @@ pub fn replay(prop: &str, ctx: &Ctx, monitor: &str, w: &Value) -> Option<Report>
         "C12" => c12::replay(ctx, monitor, w),
         "C13" => c13::replay(ctx, monitor, w),
         "C14" => c14::replay(ctx, monitor, w),
+        "C15" => c15::replay(ctx, monitor, w),
+        "C16" => c16::replay(ctx, monitor, w),
+        "C17" => c17::replay(ctx, monitor, w),
+        "C18" => c18::replay(ctx, monitor, w),
+        "C19" => c19::replay(ctx, monitor, w),
         _ => None,
     }
 }
